@@ -603,6 +603,73 @@ def replay_C17(ctx):
     return check_C17(ctx)
 
 
+def check_C08(ctx):
+    pr = proof_stage(ctx, "Properties/C08.v")
+    cov_from_proof(ctx, pr, ["Conc/Model.v (threads of critical sections at lock / read / write / unlock granularity), Pub/*.v for the per-thread replay",
+                             "modelled, not verified: that each collection update of package pub is one critical section of the Conc model rests on the C09 / C05 / C04 / C16 / C17 theorems about the sequential model programs (bracketing by the id's lock; value written = id put at the front of the value read) and is exercised, not proved, for interleavings; the Go scheduler is replaced by a deterministic cooperative one switching only at Database / Transport / callback calls"])
+    okb, outb = harness_build(ctx)
+    okm, outm, _ = coq_make(ctx, ["Pub/Replay.vo", "Pub/Monitors.vo"])
+    found = False
+    if not okb or not okm:
+        ctx.violation("C08:build", "the concurrency run could not be built", {"kind": "build", "output": (outb if not okb else outm)[-3000:], "unchecked": "correspondence C08"}, nofail=True)
+        return finish(ctx, "proof")
+    args = ["c08", "-sets", "1" if ctx.tier == "quick" else "6", "-bound", "2", "-cap", "150" if ctx.tier == "quick" else "4000", "-random", "20" if ctx.tier == "quick" else "400"]
+    key = tree_key(("c08", args, ctx.seed))
+    cdir = os.path.join(ROOT, "run", "pubcache", key)
+    res_path = os.path.join(cdir, "result.json")
+    if os.path.exists(res_path):
+        res = json.load(open(res_path))
+        ctx.note("c08 run: cached (%s)" % key)
+    else:
+        os.makedirs(cdir, exist_ok=True)
+        b = os.path.join(ROOT, "tools", "bin", "harness")
+        rc, out, dt = sh([b] + args + ["-out", cdir, "-seed", str(ctx.seed), "-tier", ctx.tier], timeout=3000)
+        ctx.note("harness c08 rc=%d (%.1fs) %s" % (rc, dt, out.strip()[-80:]))
+        if rc != 0:
+            ctx.violation("C08:harness-run", "the scheduler run failed", {"kind": "harness-run", "output": out[-3000:], "unchecked": "correspondence C08"}, nofail=True)
+            return finish(ctx, "proof")
+        shutil.copyfile(os.path.join(ROOT, "coq", "Run", "ConcCases.v"), os.path.join(cdir, "cases.v"))
+        cmd = ["coqc", "-Q", os.path.join(ROOT, "coq"), "Verif", "-Q", cdir, "Run", "observed.v"]
+        t0 = time.time()
+        rc1, out1, _ = sh(cmd, cwd=cdir, timeout=3000)
+        rc2, out2, _ = sh(cmd[:-1] + ["cases.v"], cwd=cdir, timeout=3000) if rc1 == 0 else (1, out1, 0)
+        ctx.note("coqc replay+judge rc=%d (%.1fs)" % (rc2, time.time() - t0))
+        if rc2 != 0:
+            ctx.violation("C08:cases-eval", "the Coq evaluation of the schedules failed", {"kind": "cases-eval", "output": (out1 + out2)[-3000:], "unchecked": "correspondence C08"}, nofail=True)
+            return finish(ctx, "proof")
+        defs = parse_defs(out2)
+        summ = json.load(open(os.path.join(cdir, "summary.json")))
+        res = {"conc_bad": parse_idx_tuples(defs.get("conc_bad", "")), "replay_bad": parse_idx_tuples(defs.get("replay_bad", "")),
+               "n_observed": int(re.sub(r"\D", "", defs.get("n_observed", "0").split(":")[0]) or 0),
+               "summary": {k: summ[k] for k in ("evaluations", "distinct_nontrivial", "rule", "distribution")}, "cases": summ["extra"]["cases"]}
+        json.dump(res, open(res_path, "w"))
+        for fn in ("observed.vo", "observed.glob", "cases.vo", "cases.glob"):
+            try:
+                os.remove(os.path.join(cdir, fn))
+            except OSError:
+                pass
+    cases = res["cases"]
+    ctx.coverage.update({"evaluations": len(cases), "distinct_nontrivial": len(set(json.dumps(c["schedule"]) + str(c["set"]) for c in cases)),
+                         "rule": res["summary"]["rule"], "input_distribution": res["summary"]["distribution"], "samples": cases[:1],
+                         "traces_validated_against_impl": res["n_observed"] - len(res["replay_bad"]),
+                         "disagreements": {"replay_total": len(res["replay_bad"]), "judge_flags": len(res["conc_bad"])}})
+    for (i, fields) in res["conc_bad"]:
+        c = cases[i]
+        sig = "C08:%s:%s" % ("deadlock" if "deadlock" in fields[1] else "store" if "collection" in fields[1] else "dup", c["kind"])
+        if ctx.violation(sig, "%s requests, schedule of %d choices: %s" % (c["kind"], len(c["schedule"]), fields[1]), {"kind": "schedule", "case": c, "detail": fields}):
+            found = True
+    if res["replay_bad"] and not found:
+        i, f = res["replay_bad"][0]
+        ctx.violation("C08:replay-drift", "a thread's trace under the scheduler is not a run of the model of package pub", {"kind": "correspondence", "projection": "per-thread replay", "thread_run_index": i, "detail": f, "count": len(res["replay_bad"])}, nofail=True)
+    if not pr["built"] and not found:
+        ctx.violation("C08:proof:%s" % pr.get("broken_lemma"), "theorem no longer checks", {"kind": "proof", "file": pr.get("broken_file"), "theorem": pr.get("broken_lemma"), "error": (pr.get("error") or pr.get("out", ""))[-3000:]}, nofail=True)
+    return finish(ctx, "proof")
+
+
+def replay_C08(ctx):
+    return check_C08(ctx)
+
+
 def check_C03(ctx):
     def classify(name, fields, run):
         return ("C03:%s:%s" % (run["family"].split(":")[0], "payload" if "payload" in fields[1] else "body"), "%s (faults %s): %s" % (run["family"], run["faults"], fields[1]))
